@@ -178,5 +178,50 @@ CHECKS["C02"]["quick"] = CHECKS["C02"]["quick"] + G_FOLD_Q[:2] + G_TWIN
 CHECKS["C02"]["bounds"] += "; loop takes 1..3 queued actions in dispatch order through all three entry points (G-fold)"
 CHECKS["C05"]["quick"] = CHECKS["C05"]["quick"] + G_FOLD_Q[1:2] + G_TWIN
 
+def _us(n, what, bounds, **kw):
+    return H("u_subs::" + n, what, bounds, timeout_s=kw.pop("timeout_s", 400), **kw)
+
+_W_SUBS = "real add_subscriber / unsubscribe closure (once, twice) / real do_notify / clear_subscribers or stop(); scripted subscribers; symbolic notification data; on_unsubscribe exactly once, silent after unsubscribe() returned, others unaffected and still in registration order, list empty after shutdown"
+U_SUBS_Q = [_us("u_subs_2_first", _W_SUBS, "2 subscribers, the first unsubscribes, release via stop()"), _us("u_subs_3_first", _W_SUBS, "3 subscribers, the first unsubscribes"), _us("u_subs_3_middle", _W_SUBS, "3 subscribers, the middle one unsubscribes, release via stop()")]
+U_SUBS_T = [_us("u_subs_2_second", _W_SUBS, "2 subscribers, the second unsubscribes"), _us("u_subs_3_last", _W_SUBS, "3 subscribers, the last unsubscribes")]
+U_SUBS_TWIN = [_us("twin_u_subs", "vacuity twin", "", role="twin")]
+
+def _ge(n, what, bounds, **kw):
+    return H("g_effects::" + n, what, bounds, timeout_s=kw.pop("timeout_s", 900), **kw)
+
+_W_GE = "REAL loop closure + REAL do_effect + Dispatcher::{dispatch_task,dispatch_thunk}; reduce/notify summarised, the reduce summary returns a symbolic state and one effect of a concrete kind"
+G_EFF_S2 = [_ge("g_effects_s2_task", _W_GE + "; schedule dispatch; close(); loop; workers; stop(): effect submitted once, not inline, runs once on a worker before stop() returns", "1 action with a Task effect", mem_gb=16)]
+G_EFF_S2_T = [_ge("g_effects_s2_none_task", _W_GE + "; S2 schedule", "2 actions, second with a Task", mem_gb=16), _ge("g_effects_s2_function_thunk", _W_GE + "; S2 schedule", "Function + Thunk effects", mem_gb=32, timeout_s=1800)]
+G_EFF_HOST_T = [_ge("g_effects_" + n, _W_GE + "; the reducer loop is the host: when it finds its queue empty the scheduler runs pending workers (effects, follow-up dispatches), then the client's stop()", b, mem_gb=32, timeout_s=2400) for n, b in [("task", "Task"), ("action", "Effect::Action -> follow-up action reduced once, after its producer"), ("thunk", "Thunk dispatching a follow-up"), ("function", "Function"), ("client_tasks", "dispatch_task / dispatch_thunk by a client while the store runs")]]
+G_EFF_WITNESS = [_ge("g_effects_backlog_at_stop_witness", "KNOWN-FINDING witness: dispatch(a) accepted; stop(); the loop reaches a's effect phase after stop() took the pool: the effect is silently dropped", "1 action with a Task effect", role="witness", known_finding="C11-effect-dropped-when-effect-phase-runs-after-stop-took-the-pool", timeout_s=400)]
+G_EFF_TWIN = [_ge("twin_g_effects", "vacuity twin", "", role="twin", timeout_s=600)]
+
+CHECKS["C09"] = {
+    "bounds": "2..3 direct subscribers; unsubscribe of the first / middle / last, once and twice; notifications before and after; release by clear_subscribers() and by stop(); notification data symbolic",
+    "outside": "an unsubscribe() landing INSIDE a notification round of the same action (between the subscriber snapshot and the callback): needs a client call placed inside a subscriber callback (S- harness, not yet registered); channeled subscribers' lifecycle is checked under C10; more than 3 subscribers",
+    "assumptions": [_SEQ_ASSUME],
+    "quick": U_SUBS_Q + U_SUBS_TWIN,
+    "thorough": U_SUBS_T,
+}
+CHECKS["C11"] = {
+    "bounds": "effects of every kind (Task, Thunk, Function, Action), <=2 per action, middleware removal of a concrete subset (U-effect); at loop level one effect per action, 1..2 actions, schedules: close-loop-workers-stop (quick) and loop-as-host with workers and the client's stop() scheduled when the loop is idle (thorough)",
+    "outside": "PANICKING effects (Kani has no unwinding; the pool's panic recovery is not modelled) - that part of the quantifier is not addressed; slow effects / worker starvation; the 3 s join timeout; Effect::Action whose thunk runs after close() (the property exempts it; the code panics in a worker on expect())",
+    "assumptions": [_SEQ_ASSUME, "pool model: every submitted task runs exactly once, on a worker context, before a join returns"],
+    "quick": U_EFFECT_Q + U_EFFECT_C[:1] + G_EFF_S2 + G_EFF_WITNESS + U_PHASE_TWIN,
+    "thorough": U_EFFECT_T + U_EFFECT_C[1:] + U_EFFECT_C2 + G_EFF_S2_T + G_EFF_HOST_T + G_EFF_TWIN,
+}
+
+def _g2(n, what, bounds, **kw):
+    return H("g_two::" + n, what, bounds, timeout_s=kw.pop("timeout_s", 400), **kw)
+
+_W_TWO = "two REAL stores with equal configuration (same name, same reducer type, one subscriber object registered with both), per-store phase summaries with unconstrained results; dispatches interleaved; one store stopped or dropped while the other has a backlog and keeps accepting; then the other stopped: each store's log, state, acceptance, pool, subscribers and metrics are those of the single-store model"
+CHECKS["C19"] = {
+    "bounds": "two stores; <=2 actions each plus one late action; stop() or drop(DroppableStore) of one while the other is busy; interleaving at call granularity",
+    "outside": "more than two stores; operations on one store placed at scheduling points inside the other's loop; interference through user-supplied shared objects",
+    "assumptions": [_SEQ_ASSUME],
+    "quick": [_g2("g_two_stop", _W_TWO, "A: 2+1 actions, B: 1 action, B stopped first"), _g2("g_two_drop", _W_TWO, "A: 1+1 actions, B: 2 actions, B dropped through DroppableStore"), _g2("twin_g_two", "vacuity twin", "", role="twin")],
+    "thorough": [_g2("g_two_stop_idle_b", _W_TWO, "B idle when stopped")],
+}
+
 HOOK_COMMITS = ["da8b80e", "8cd617e"]
 NOT_APPLICABLE = {}
